@@ -80,6 +80,11 @@ CLASSES["DiscoItemsIq"] = DISCO
 CLASSES["VCardAddress"] = pair("QXmppVCardIq.cpp", "QXmppVCardAddress", 1, "parse")
 CLASSES["VCardEmail"] = pair("QXmppVCardIq.cpp", "QXmppVCardEmail", 1, "parse")
 CLASSES["VCardPhone"] = pair("QXmppVCardIq.cpp", "QXmppVCardPhone", 1, "parse")
+CLASSES["MamQueryIq"] = [("QXmppMamIq.cpp", "QXmppMamQueryIq::parseElementFromChild", 1), ("QXmppMamIq.cpp", "QXmppMamQueryIq::toXmlElementFromChild", 1),
+                         "@DataForm", "@ResultSetQuery"]
+SUBSCRIPTION = pair("QXmppPubSubSubscription.cpp", "QXmppPubSubSubscription", 1, "parse")
+for v in ("", "Event", "Owner"):
+    CLASSES["PubSubSubscription" + v] = SUBSCRIPTION
 PUBSUB = [("QXmppPubSubIq.cpp", "PubSubIqBase::parseElementFromChild", 1), ("QXmppPubSubIq.cpp", "PubSubIqBase::toXmlElementFromChild", 1)]
 for v in ("Unsubscribe", "Subscribe", "Options", "Create", "Delete", "Purge", "Configure", "Default", "OwnerDefault"):
     CLASSES["PubSubIq" + v] = PUBSUB
